@@ -1,6 +1,6 @@
 (* C12 — reserved-word and colliding names are disambiguated without altering the wire.
    Statements only; lists RESERVED_NAMES / KWLIST / ... are regenerated from /repo on every run (Gen/Kw.v). *)
-From GV Require Import Base.Str Gen.Kw Model.Reserved Proofs.Reserved.
+From GV Require Import Base.Str Gen.Kw Model.Case Model.HttpValues Model.Http Model.Reserved Proofs.CamelJson Proofs.Reserved.
 
 (* every Python keyword of the interpreter that imports the emitted code is in the generator's reserved list *)
 Theorem C12_kwlist_subset_reserved : forall w, In w KWLIST -> reserved w = true.
@@ -67,6 +67,23 @@ Theorem C12_module_alias_same_initials_refuted :
   exists p1 p2 v m, p1 <> p2 /\ module_alias p1 v m true = module_alias p2 v m true.
 Proof. exact module_alias_same_initials_refuted. Qed.
 Print Assumptions C12_module_alias_same_initials_refuted.
+
+(* REQUIRED query fields over REST: the transport re-adds them under camel_case(attribute name).  For every lower_snake
+   proto name (reserved or not) that key is the JSON name of the ORIGINAL field, so the wire name is not altered ... *)
+Theorem C12_required_query_key_is_original : forall w,
+  sall word_char w = true -> camel_case (field_attr w) = to_json_name w.
+Proof. exact required_key_is_original_json_name. Qed.
+Print Assumptions C12_required_query_key_is_original.
+
+Theorem C12_camel_case_is_json_name : forall w, sall word_char w = true -> camel_case w = to_json_name w.
+Proof. exact camel_case_is_json_name. Qed.
+Print Assumptions C12_camel_case_is_json_name.
+
+(* ... and the hypothesis is needed: a capital letter (the reserved words None / True / False) is lower-cased by one
+   function and kept by the other (known finding C12-capitalised-required-query-field) *)
+Theorem C12_camel_case_capital_refuted : exists w, camel_case w <> to_json_name w.
+Proof. exact camel_case_capital_refuted. Qed.
+Print Assumptions C12_camel_case_capital_refuted.
 
 Example C12_examples :
   field_attr "class" = "class_" /\ fix_path "book.class.name" = "book.class_.name" /\ body_attr "import" = "import_"
